@@ -369,7 +369,20 @@ func runC04(c *Ctx) {
 		}
 		r.Check(floor && zero && okRet, "R4.3", pk+" removeEmptyBytes", c.Pos(fn.Pos()), "strips trailing 0x00 while more than one byte remains", fmt.Sprintf("removeEmptyBytes shape wrong (one-byte floor: %v, strips exactly while the last byte is 0: %v, returns a prefix of its argument: %v): payloads could be truncated to zero bytes or non-zero bytes stripped", floor, zero, okRet))
 	}
-	if fn := c.Fn("pkg/frame", "hasEmptyBytes"); fn != nil {
+	if fn := c.FnOpt("pkg/frame", "hasEmptyBytes"); fn == nil {
+		// the test in line: in Reader.Read the re-truncation (removeEmptyBytes) is guarded by `len(p) > 1` and
+		// `p[len(p)-1] == 0` on the same payload p
+		okIn, whyIn := false, "frame.hasEmptyBytes is gone and Reader.Read does not guard its removeEmptyBytes call by `len(p) > 1 && p[len(p)-1] == 0`"
+		if rd := c.FnOpt("pkg/frame", "Reader.Read"); rd != nil {
+			for _, ci := range callsNamed(rd, "frame.removeEmptyBytes") {
+				pv := ex(ci.Common().Args[0])
+				if condTrueAt(rd, "(len("+pv+") > 1)", ci.Block()) && condTrueAt(rd, "("+pv+"[(len("+pv+") - 1)] == 0)", ci.Block()) {
+					okIn = true
+				}
+			}
+		}
+		r.Check(okIn, "R4.3", "frame.hasEmptyBytes", "-", "in line: len > 1 && last byte == 0", whyIn)
+	} else {
 		rets := retInstrs(fn)
 		s := ""
 		if len(rets) == 1 {
@@ -548,15 +561,34 @@ func ruleCursor(c *Ctx, rule string) {
 				continue // slice cursor: cur = cur[n:], n the codec's count for cur
 			}
 			// index cursor: base[pos:] handed to the codec, pos accumulating nothing but the codec's counts
-			isCodecCount := func(x ssa.Value) bool {
+			seenAcc := map[ssa.Value]bool{}
+			var isAccum func(x ssa.Value) bool
+			var isCodecCount func(x ssa.Value) bool
+			isCodecCount = func(x ssa.Value) bool {
 				if cv, ok := x.(*ssa.Convert); ok {
 					x = cv.X
 				}
-				cc, ok := x.(*ssa.Call)
-				return ok && calleeName(&cc.Call) == v.call
+				if cc, ok := x.(*ssa.Call); ok {
+					return calleeName(&cc.Call) == v.call
+				}
+				// the count of a whole field: a codec count, or an inner accumulator of codec counts (array elements)
+				if p, ok := x.(*ssa.Phi); ok {
+					if seenAcc[p] {
+						return true
+					}
+					seenAcc[p] = true
+					for _, e := range p.Edges {
+						if !isCodecCount(e) && !isAccum(e) {
+							return false
+						}
+					}
+					return true
+				}
+				if b, ok := x.(*ssa.BinOp); ok && b.Op == token.ADD {
+					return isAccum(x)
+				}
+				return false
 			}
-			seenAcc := map[ssa.Value]bool{}
-			var isAccum func(x ssa.Value) bool
 			isAccum = func(x ssa.Value) bool {
 				if seenAcc[x] {
 					return true
@@ -585,6 +617,8 @@ func ruleCursor(c *Ctx, rule string) {
 				for _, rf := range *sl.Referrers() {
 					switch z := rf.(type) {
 					case *ssa.DebugRef:
+					case *ssa.Slice:
+						// re-sliced for the elements of an array field: that slice is checked on its own
 					case *ssa.Call:
 						if calleeName(&z.Call) != v.call || z.Call.Args[bufArg] != ssa.Value(sl) {
 							onlyCodec = false
